@@ -641,7 +641,9 @@ func (w *World) checkTreeNodes(au consensus.ApplyUpdate) *Problem {
 	}
 	var p *Problem
 	seenLeaf := map[uint64]bool{}
+	seenNode := map[[2]uint64]bool{}
 	au.ForEachTreeNode(func(row, col uint64, h types.Hash256) {
+		seenNode[[2]uint64{row, col}] = true
 		if p != nil {
 			return
 		}
@@ -669,6 +671,17 @@ func (w *World) checkTreeNodes(au consensus.ApplyUpdate) *Problem {
 	for l := range seenLeaf {
 		if !want[l] {
 			return problem("treenodes|extra", "ForEachTreeNode reported leaf %d which the block did not change", l)
+		}
+	}
+	// every ancestor of a changed leaf changed too: a client mirroring the forest from the reported nodes needs them all
+	for l := range want {
+		for row := uint64(1); row < 64; row++ {
+			if _, ok := w.Forest.NodeAt(row, l>>row); !ok {
+				break
+			}
+			if !seenNode[[2]uint64{row, l >> row}] {
+				return problem("treenodes|missing-ancestor", "ForEachTreeNode did not report node (%d,%d), an ancestor of changed leaf %d", row, l>>row, l)
+			}
 		}
 	}
 	return nil
